@@ -1,5 +1,6 @@
 import Falcon.Props.C11
 import Falcon.Lemmas.BabaiAlg
+import Falcon.Lemmas.TowerAlg
 import Falcon.Model.KeygenSkel
 
 /-!
@@ -34,6 +35,45 @@ theorem ntru_lift {R : Type} [CommRing R] (f g sf sg F' G' q : R)
 theorem ntru_reduce {R : Type} [CommRing R] (f g F G k q : R) (h : f * G - g * F = q) :
     f * (G - k * g) - g * (F - k * f) = q := by
   linear_combination h
+
+/-! ### the tower on coefficient lists (models of `field_norm`, `lift_next_cyclotomic`, `galois_adjoint` in polynomial.rs) -/
+
+/-- `field_norm` is the relative norm: N(f)(ρ²) = f(ρ)·f(−ρ) at every root ρ of Xⁿ+1 (n = 2m) in every commutative
+    ring; `galois_adjoint` is f(X) ↦ f(−X); `lift_next_cyclotomic` is f(X) ↦ f(X²) -/
+theorem tower_maps {R : Type} [CommRing R] (m : Nat) (hm : 0 < m) (f : List Int) (hf : f.length = 2 * m) (ρ : R)
+    (hρ : ρ ^ (2 * m) = -1) :
+    RingZ.ev (RingZ.fieldNorm (2 * m) f) (ρ * ρ) = RingZ.ev f ρ * RingZ.ev f (-ρ) ∧
+    RingZ.ev (RingZ.adjoint f) ρ = RingZ.ev f (-ρ) ∧
+    RingZ.ev (RingZ.lift f) ρ = RingZ.ev f (ρ * ρ) :=
+  ⟨RingZ.ev_fieldNorm m hm f hf ρ hρ, RingZ.ev_adjoint f ρ, RingZ.ev_lift f ρ⟩
+
+/-- the lifting step on lists: a solution (F', G') for (N f, N g) at ρ² gives the solution
+    (lift F' ⋆ g^⋆, lift G' ⋆ f^⋆) for (f, g) at ρ -/
+theorem lift_step_sound {R : Type} [CommRing R] (m : Nat) (hm : 0 < m) (f g cF' cG' : List Int)
+    (hf : f.length = 2 * m) (hg : g.length = 2 * m) (ρ : R) (hρ : ρ ^ (2 * m) = -1) (Q : R)
+    (h : RingZ.ev (RingZ.fieldNorm (2 * m) f) (ρ * ρ) * RingZ.ev cG' (ρ * ρ) -
+         RingZ.ev (RingZ.fieldNorm (2 * m) g) (ρ * ρ) * RingZ.ev cF' (ρ * ρ) = Q) :
+    RingZ.ev f ρ * RingZ.ev (RingZ.liftStep (2 * m) f g cF' cG').2 ρ -
+      RingZ.ev g ρ * RingZ.ev (RingZ.liftStep (2 * m) f g cF' cG').1 ρ = Q :=
+  RingZ.liftStep_sound m hm f g cF' cG' hf hg ρ hρ Q h
+
+/-- **NTRUSolve is sound for every depth**: with the extended gcd (any routine satisfying Bézout's identity) and the
+    Babai quotient sequences of every level as parameters — the two ingredients the theorem cannot see into — a
+    returned pair has the right lengths and solves f⋆G − g⋆F = q at every root of Xⁿ+1 in every commutative ring, in
+    particular in ℤ[X]/(Xⁿ+1) itself -/
+theorem ntru_solve_sound {R : Type} [CommRing R] (xg : Int → Int → Int × Int × Int)
+    (hx : ∀ a b, (xg a b).2.1 * a + (xg a b).2.2 * b = (xg a b).1)
+    (ks : Nat → List Int → List Int → List (List Int)) (d : Nat) (f g cF cG : List Int)
+    (hf : f.length = 2 ^ d) (hg : g.length = 2 ^ d) (hs : RingZ.ntruSolve xg ks d f g = some (cF, cG)) :
+    cF.length = 2 ^ d ∧ cG.length = 2 ^ d ∧
+      ∀ (ρ : R), ρ ^ (2 ^ d) = -1 → RingZ.ev f ρ * RingZ.ev cG ρ - RingZ.ev g ρ * RingZ.ev cF ρ = (12289 : R) :=
+  RingZ.ntruSolve_sound xg hx ks d f g cF cG hf hg hs
+
+/-- non-vacuity: the model of NTRUSolve on (f, g) = (1 + X, 3 + 2X) (n = 2; N f = 2, N g = 13, −6·2 + 1·13 = 1, no Babai
+    rounds) returns a pair that solves the equation over ℤ -/
+example : RingZ.ntruSolve (fun _ _ => (1, -6, 1)) (fun _ _ _ => []) 1 [1, 1] [3, 2] =
+      some ([-36867, 24578], [-73734, 73734]) ∧
+    RingZ.ntruLhs 2 [1, 1] [3, 2] [-36867, 24578] [-73734, 73734] = [12289, 0] := by decide
 
 /-- **public key relation**: if ntt h ⊙ ntt f = ntt g pointwise then h ⋆ f = g in Z_q[X]/(X^n+1) -/
 theorem public_key_relation (d : Nat) (hd : d ≤ 10) (h f g : List Nat)
